@@ -27,7 +27,10 @@ def _stream_trees(c, n, model):
                           vars=['a', 'b', 'c', 'd', 'e', 'x', 'y', 'z', 'n1', 'v1', 'a2', '_'], p_meta=0.5, exotic_symbols=0.0,
                           p_noconcept=0.05, p_missing_concept=0.0, p_missing_target=0.02, p_concept_is_var=0.02)
         node, meta = gen.random_tree(c.rng, cfg)
-        out.append(penman.format(penman.Tree(node, metadata=meta), indent=c.rng.choice([None, -1, 0, 2]), compact=c.rng.random() < 0.3))
+        s = penman.format(penman.Tree(node, metadata=meta), indent=c.rng.choice([None, -1, 0, 2]), compact=c.rng.random() < 0.3)
+        if not meta and c.rng.random() < 0.3:
+            s = c.rng.choice(gen.MULTIKEY_HEADERS) + s       # several keys on one comment line
+        out.append(s)
     return out
 
 
